@@ -554,4 +554,262 @@ theorem gen_writerange (E : Elem β) (g : RT β) (h : GWF g) (dt : DType) (xsh :
   | empty d => simp [step, lift, hdat, toM, throw, throwThe, MonadExceptOf.throw, bind, Except.bind]
   | uninit d => simp [step, lift, hdat, toM, throw, throwThe, MonadExceptOf.throw, bind, Except.bind]
 
+/-! ## readrange, tensor offset (one offset per position; rows of `P = offs.length` positions) -/
+
+theorem allSome_map_some {α : Type} (l : List α) : allSome (l.map some) = some l := by
+  induction l with
+  | nil => rfl
+  | cons a l ih => simp [allSome, ih]
+
+/-- per-position columns of a time-major block of rows with `P` positions -/
+def colsOf (rows : List (List β)) (P : Nat) : List (List (Option β)) :=
+  (List.range P).map fun pos => rows.map fun r => r[pos]?
+
+theorem exists_of_all_some {α : Type} : ∀ (l : List (Option α)), (∀ x ∈ l, x.isSome) → ∃ r : List α, l = r.map some
+  | [], _ => ⟨[], rfl⟩
+  | none :: l, h => by have := h none (by simp); simp at this
+  | some a :: l, h => by
+    obtain ⟨r, hr⟩ := exists_of_all_some l (fun x hx => h x (by simp [hx]))
+    exact ⟨a :: r, by simp [hr]⟩
+
+theorem exists_of_all_some2 {α : Type} : ∀ (O : List (List (Option α))), (∀ row ∈ O, ∀ x ∈ row, x.isSome) →
+    ∃ R : List (List α), O = R.map (·.map some)
+  | [], _ => ⟨[], rfl⟩
+  | row :: O, h => by
+    obtain ⟨r, hr⟩ := exists_of_all_some row (h row (by simp))
+    obtain ⟨R, hR⟩ := exists_of_all_some2 O (fun x hx => h x (by simp [hx]))
+    exact ⟨r :: R, by simp [hr, hR]⟩
+
+theorem allSome_block {α : Type} (R : List (List α)) : allSome ((R.map (·.map some)).map allSome) = some R := by
+  rw [List.map_map]
+  have : (allSome ∘ fun (x : List α) => x.map some) = some := by
+    funext r; simp [allSome_map_some]
+  rw [this, allSome_map_some]
+
+/-- transposition: the columns of a time-major block whose entries are known position by position -/
+theorem cols_transpose (R : List (List β)) (len : Nat) (offs : List Int) (X : Int → Nat → Nat → Option β)
+    (hR : R.map (·.map some) = (List.range len).map (fun (j : Nat) => offs.zipIdx.map (fun op => X op.1 op.2 j))) :
+    colsOf R offs.length = offs.zipIdx.map (fun op => (List.range len).map (fun (j : Nat) => X op.1 op.2 j)) := by
+  have hlen : R.length = len := by simpa using congrArg List.length hR
+  apply List.ext_getElem
+  · simp [colsOf]
+  · intro i h1 h2
+    simp only [colsOf, List.length_map, List.length_range] at h1
+    simp only [colsOf, List.getElem_map, List.getElem_range, List.getElem_zipIdx, Nat.zero_add]
+    apply List.ext_getElem
+    · simp [hlen]
+    · intro j h3 h4
+      simp only [List.length_map] at h3
+      simp only [List.getElem_map, List.getElem_range]
+      have := congrArg (fun l => (l[j]?).bind (·[i]?)) hR
+      simp only [List.getElem?_map, List.getElem?_eq_getElem h3, Option.map_some, Option.bind_some,
+        List.getElem?_range (hlen ▸ h3), List.getElem?_zipIdx, h1, List.getElem?_eq_getElem,
+        Nat.zero_add] at this
+      cases hv : (R[j])[i]? with
+      | none => rw [hv] at this; simp at this
+      | some v => rw [hv] at this; simpa using this
+
+theorem gen_readrangeT (E : Elem β) (g : RT β) (h : GWF g) (len : Nat) (osh : List Nat) (offs : List Int)
+    (fwd : Bool) (hlen : 1 ≤ len) (hlen' : (len : Int) ≤ g.recordsz)
+    (hrows : ∀ d sh s, g.data = .init d sh s → ∀ r ∈ s.rows, r.length = offs.length) :
+    lift g (fun tl => Out.omat (colsOf tl.stack.rows offs.length))
+        (RecordTensor_readrange E g (len : Int) (.ten osh offs) fwd)
+      = step E (toM g) (.readrangeT len osh offs fwd) := by
+  obtain ⟨hn, hd⟩ := h
+  unfold RecordTensor_readrange toM
+  cases hdat : g.data with
+  | init d sh s =>
+    have hr := hrows d sh s hdat
+    rw [hdat] at hd
+    simp only at hd
+    obtain ⟨hdt, hsh, hl, hp0, hp1⟩ := hd
+    subst hdt; subst hsh
+    have hlen2 : ¬ (len = 0 ∨ len > g.recordsz.toNat) := by omega
+    have hoff : (if (!fwd) = true then (Off.ten osh offs).add ((len : Int) - 1) else Off.ten osh offs)
+        = Off.ten osh (offs.map (shiftOffset · len fwd)) := by
+      cases fwd <;> simp [Off.add, shiftOffset]
+    simp only [step, lift, bind, Except.bind, pure, Except.pure, hoff, hlen2, ↓reduceIte]
+    by_cases hshape : osh = s.oshape
+    · subst hshape
+      simp only [ne_eq, not_true_eq_false, decide_false, Bool.false_eq_true, ↓reduceIte]
+      generalize hoffs : offs.map (shiftOffset · len fwd) = offs'
+      have hlo : offs'.length = offs.length := by rw [← hoffs]; simp
+      -- the gathered block, as options
+      have hopt : s.gatherOpt ((subLast offs' (arange 0 (len : Int))).map
+            (·.map (fun o_ => InfraF._unwind_tensor_ptr g.pointer o_ g.recordsz)))
+          = (List.range len).map (fun (j : Nat) => offs'.zipIdx.map (fun op =>
+              (s.rows[unwind g.pointer.toNat (op.1 - (j : Int)) g.recordsz.toNat]?).bind (·[op.2]?))) := by
+        simp only [Stack.gatherOpt, subLast, arange, List.map_map, Int.sub_zero, Int.toNat_natCast]
+        apply List.map_congr_left
+        intro j _
+        simp only [Function.comp, Int.zero_add, List.zipIdx_map, List.map_map]
+        apply List.map_congr_left
+        intro op _
+        have := unwind_eq g.pointer (op.1 - (j : Int)) g.recordsz hn hp0
+        simp only [InfraF._unwind_ptr] at this
+        simp only [InfraF._unwind_tensor_ptr, Function.comp, Prod.map, id, this, hl]
+        rw [pyIndex_nat _ _ (unwind_lt _ _ _ (by omega))]
+        simp
+      have hall : ∀ row ∈ (List.range len).map (fun (j : Nat) => offs'.zipIdx.map (fun op =>
+              (s.rows[unwind g.pointer.toNat (op.1 - (j : Int)) g.recordsz.toNat]?).bind (·[op.2]?))),
+            ∀ x ∈ row, x.isSome := by
+        intro row hrow x hx
+        simp only [List.mem_map, List.mem_range] at hrow
+        obtain ⟨j, _, rfl⟩ := hrow
+        simp only [List.mem_map] at hx
+        obtain ⟨op, hop, rfl⟩ := hx
+        have hk := unwind_lt g.pointer.toNat (op.1 - (j : Int)) g.recordsz.toNat (by omega)
+        have hpos : op.2 < offs'.length := by
+          have := List.mem_zipIdx hop
+          omega
+        have hk' : unwind g.pointer.toNat (op.1 - (j : Int)) g.recordsz.toNat < s.rows.length := by omega
+        rw [List.getElem?_eq_getElem hk']
+        have := hr _ (List.getElem_mem hk')
+        simp only [Option.bind_some]
+        rw [List.getElem?_eq_getElem (by omega)]
+        rfl
+      obtain ⟨R, hR⟩ := exists_of_all_some2 _ hall
+      simp only [Stack.gather0E, hopt, hR, allSome_block]
+      simp only [toM, hdat, Ring.readrangeT]
+      rw [← hlo, cols_transpose R len offs' (fun o pos j =>
+        (s.rows[unwind g.pointer.toNat (o - (j : Int)) g.recordsz.toNat]?).bind (·[pos]?)) hR.symm]
+    · have hs2 : ¬ s.oshape = osh := fun e => hshape e.symm
+      simp [hshape, throw, throwThe, MonadExceptOf.throw, hdat, toM]
+  | none => simp [step, lift, hdat, toM, throw, throwThe, MonadExceptOf.throw, bind, Except.bind]
+  | empty d => simp [step, lift, hdat, toM, throw, throwThe, MonadExceptOf.throw, bind, Except.bind]
+  | uninit d => simp [step, lift, hdat, toM, throw, throwThe, MonadExceptOf.throw, bind, Except.bind]
+
+/-! ## writerange, tensor offset (`scatter`; in-place and out-of-place coincide) -/
+
+theorem zip_range_map' {γ δ : Type} (f : Nat → γ) (xs : List δ) :
+    ((List.range xs.length).map f).zip xs = xs.zipIdx.map (fun xj => (f xj.2, xj.1)) := by
+  apply List.ext_getElem
+  · simp
+  · intro i h1 h2
+    simp at h1 h2 ⊢
+
+/-- one time slice of a `scatter`: in-range natural indices never fail; the slice is a fold of `modify` -/
+theorem scatter_row_ok (n : Nat) : ∀ (ks : List Nat) (vs : List β) (start : Nat) (d : List (List β)),
+    d.length = n → (∀ k ∈ ks, k < n) →
+    (((ks.map Int.ofNat).zip vs).zipIdx start).foldlM
+        (fun (d : List (List β)) ivp => scatter1 d ivp.1.1 ivp.2 ivp.1.2) d
+      = some (((ks.zip vs).zipIdx start).foldl (fun (d : List (List β)) kvp => d.modify kvp.1.1 (·.set kvp.2 kvp.1.2)) d)
+    ∧ (((ks.zip vs).zipIdx start).foldl (fun (d : List (List β)) kvp => d.modify kvp.1.1 (·.set kvp.2 kvp.1.2)) d).length = n := by
+  intro ks
+  induction ks with
+  | nil => intro vs start d hd _; simp [hd]
+  | cons k ks ih =>
+    intro vs start d hd hk
+    cases vs with
+    | nil => simp [hd]
+    | cons v vs =>
+      have hk0 : k < d.length := by rw [hd]; exact hk k (by simp)
+      have := ih vs (start + 1) (d.modify k (·.set start v)) (by simp [hd]) (fun k' hk' => hk k' (by simp [hk']))
+      simp only [List.map_cons, List.zip_cons_cons, List.zipIdx_cons, List.foldlM_cons, List.foldl_cons,
+        scatter1, Int.ofNat_eq_natCast, pyIndex_nat _ _ hk0, Option.map_some, Option.bind_some, bind, Option.bind]
+      exact this
+
+/-- the whole `scatter`: every time slice succeeds -/
+theorem scatter_rows_ok (n : Nat) (u : Nat → List Nat) (hu : ∀ j, ∀ k ∈ u j, k < n) :
+    ∀ (xs' : List (List β)) (j0 : Nat) (d : List (List β)), d.length = n →
+    ((xs'.zipIdx j0).map (fun xj => ((u xj.2).map Int.ofNat, xj.1))).foldlM
+        (fun (d : List (List β)) ir => (ir.1.zip ir.2).zipIdx.foldlM
+          (fun (d : List (List β)) ivp => scatter1 d ivp.1.1 ivp.2 ivp.1.2) d) d
+      = some ((xs'.zipIdx j0).foldl (fun (d : List (List β)) xj =>
+          ((u xj.2).zip xj.1).zipIdx.foldl (fun (d : List (List β)) kvp => d.modify kvp.1.1 (·.set kvp.2 kvp.1.2)) d) d) := by
+  intro xs'
+  induction xs' with
+  | nil => intro j0 d _; rfl
+  | cons x xs' ih =>
+    intro j0 d hd
+    obtain ⟨h1, h2⟩ := scatter_row_ok n (u j0) x 0 d hd (hu j0)
+    simp only [List.zipIdx_cons, List.map_cons, List.foldlM_cons, List.foldl_cons, h1, bind, Option.bind]
+    exact ih (j0 + 1) _ h2
+
+theorem zip_map_swap {γ δ ε : Type} (f : γ → ε) : ∀ (l1 : List γ) (l2 : List δ),
+    (l1.map f).zip l2 = (l2.zip l1).map (fun vo => (f vo.2, vo.1))
+  | [], l2 => by cases l2 <;> simp
+  | _ :: _, [] => by simp
+  | a :: l1, b :: l2 => by simp [zip_map_swap f l1 l2]
+
+/-- `scatter` with the wrapped per-position indices never fails and is the model's `writerangeT` -/
+theorem scatter_ok (s : Stack β) (p n : Int) (hn : 0 < n) (hp0 : 0 ≤ p)
+    (hl : s.rows.length = n.toNat) (xs' : List (List β)) (offs' : List Int) :
+    s.scatter0E ((subLast offs' (arange 0 (xs'.length : Int))).map
+          (·.map (fun o_ => InfraF._unwind_tensor_ptr p o_ n))) ⟨s.dt, s.oshape, xs'⟩
+      = .ok { s with rows := (Ring.writerangeT ⟨n.toNat, p.toNat, s.rows⟩ xs' offs').data } := by
+  have hidx : (subLast offs' (arange 0 (xs'.length : Int))).map
+        (·.map (fun o_ => InfraF._unwind_tensor_ptr p o_ n))
+      = (List.range xs'.length).map (fun (j : Nat) =>
+          (offs'.map (fun o => unwind p.toNat (o - (j : Int)) n.toNat)).map Int.ofNat) := by
+    simp only [subLast, arange, List.map_map, Int.sub_zero, Int.toNat_natCast]
+    apply List.map_congr_left
+    intro j _
+    simp only [Function.comp, Int.zero_add, List.map_map]
+    apply List.map_congr_left
+    intro o _
+    have := unwind_eq p (o - (j : Int)) n hn hp0
+    simp only [InfraF._unwind_ptr] at this
+    simp only [InfraF._unwind_tensor_ptr, this, Int.ofNat_eq_natCast, Function.comp]
+  rw [hidx]
+  unfold Stack.scatter0E
+  simp only []
+  rw [zip_range_map' (fun (j : Nat) => (offs'.map (fun o => unwind p.toNat (o - (j : Int)) n.toNat)).map Int.ofNat) xs']
+  have key := scatter_rows_ok (β := β) n.toNat (fun j => offs'.map (fun o => unwind p.toNat (o - (j : Int)) n.toNat))
+    (by
+      intro j k hk
+      simp only [List.mem_map] at hk
+      obtain ⟨o, _, rfl⟩ := hk
+      exact unwind_lt _ _ _ (by omega))
+    xs' 0 s.rows hl
+  rw [key]
+  simp only [Ring.writerangeT]
+  congr 1
+  refine congrArg (fun f => (⟨s.dt, s.oshape, List.foldl f s.rows xs'.zipIdx⟩ : Stack β)) ?_
+  funext d xj
+  rw [zip_map_swap, List.zipIdx_map, List.foldl_map]
+  simp only [Prod.map, id]
+
+theorem gen_writerangeT (E : Elem β) (g : RT β) (h : GWF g) (dt : DType) (xsh : List Nat)
+    (xs : List (List β)) (osh : List Nat) (offs : List Int) (fwd inplace : Bool) (hxs : xs.length ≠ 0) :
+    lift g (fun _ => Out.unit)
+        (RecordTensor_writerange E g ⟨⟨dt, xsh, xs⟩⟩ (.ten osh offs) fwd inplace)
+      = step E (toM g) (.writerangeT dt xsh xs osh offs fwd inplace) := by
+  obtain ⟨hn, hd⟩ := h
+  unfold RecordTensor_writerange toM
+  cases hdat : g.data with
+  | init d sh s =>
+    rw [hdat] at hd
+    simp only at hd
+    obtain ⟨hdt, hsh, hl, hp0, hp1⟩ := hd
+    subst hdt; subst hsh
+    have hoff : (if (!fwd) = true then (Off.ten osh offs).add ((xs.length : Int) - 1) else Off.ten osh offs)
+        = Off.ten osh (offs.map (shiftOffset · xs.length fwd)) := by
+      cases fwd <;> simp [Off.add, shiftOffset]
+    simp only [step, lift, bind, Except.bind, pure, Except.pure, hoff]
+    by_cases hshape : xsh = s.oshape
+    · subst hshape
+      have en : ((g.recordsz.toNat : Nat) : Int) = g.recordsz := Int.toNat_of_nonneg (by omega)
+      simp only [ne_eq, not_true_eq_false, decide_false, Bool.false_eq_true, ↓reduceIte, hl, en]
+      by_cases hlong : xs.length > g.recordsz.toNat
+      · have : (xs.length : Int) > g.recordsz := by omega
+        simp only [this, decide_true, ↓reduceIte, hlong, throw, throwThe, MonadExceptOf.throw, hdat, toM]
+      · have h1 : ¬ (xs.length : Int) > g.recordsz := by omega
+        simp only [h1, decide_false, Bool.false_eq_true, ↓reduceIte, hlong, hxs]
+        by_cases hosh : osh = s.oshape
+        · subst hosh
+          simp only [ne_eq, not_true_eq_false, decide_false, Bool.false_eq_true, ↓reduceIte, ite_self]
+          generalize hoffs : offs.map (shiftOffset · xs.length fwd) = offs'
+          have hsc := scatter_ok s g.pointer g.recordsz hn hp0 hl (xs.map (·.map (E.conv dt s.dt))) offs'
+          simp only [List.length_map, Stack.to] at hsc ⊢
+          rw [hsc]
+          simp [Store.ofStack, toM, Ring.writerangeT]
+        · have hs2 : ¬ s.oshape = osh := fun e => hosh e.symm
+          simp [hosh, hs2, throw, throwThe, MonadExceptOf.throw, hdat, toM]
+    · have hs2 : ¬ s.oshape = xsh := fun e => hshape e.symm
+      simp [hshape, throw, throwThe, MonadExceptOf.throw, hdat, toM]
+  | none => simp [step, lift, hdat, toM, throw, throwThe, MonadExceptOf.throw, bind, Except.bind]
+  | empty d => simp [step, lift, hdat, toM, throw, throwThe, MonadExceptOf.throw, bind, Except.bind]
+  | uninit d => simp [step, lift, hdat, toM, throw, throwThe, MonadExceptOf.throw, bind, Except.bind]
+
 end InfernoVerif.Gen.RingProg
